@@ -48,7 +48,7 @@ var families = map[string]string{
 	"oned_rt": "oned_tables", "rs": "rs_fields", "eci": "charsets", "aztec": "rs_fields",
 }
 
-var opKinds = []string{"qr_enc", "qr_rt", "qr_hint", "dm_enc", "dm_rt", "oned_rt", "rs", "eci", "aztec"}
+var opKinds = []string{"qr_enc", "qr_rt", "qr_hint", "qr_eci", "dm_enc", "dm_rt", "oned_rt", "rs", "eci", "aztec"}
 
 func digestMatrix(bm *gozxing.BitMatrix) string {
 	h := fnv.New64a()
@@ -69,6 +69,15 @@ func text(rng *hx.Rng, n int, alpha string) string {
 	b := make([]byte, n)
 	for i := range b {
 		b[i] = alpha[rng.Intn(len(alpha))]
+	}
+	return string(b)
+}
+
+func runeText(rng *hx.Rng, n int, alpha string) string {
+	rs := []rune(alpha)
+	b := make([]rune, n)
+	for i := range b {
+		b[i] = rs[rng.Intn(len(rs))]
 	}
 	return string(b)
 }
@@ -136,6 +145,24 @@ func run(op Op) string {
 			return "err"
 		}
 		return r.GetText()
+	case "qr_eci":
+		// designated byte segments: the reader resolves the charset through the shared ECI table
+		sets := []struct{ name, alpha string }{
+			{"UTF-16BE", "abcé漢字Ж€"}, {"UTF-16BE", "xyzüπ日本"}, {"UTF-8", "abcé漢字Ж€😀"}, {"Shift_JIS", "abcｱｲ漢字"},
+			{"GB18030", "abc中文é"}, {"Big5", "abc中文"}, {"EUC-KR", "abc한국어"}, {"ISO-8859-7", "abcαβγ"}, {"windows-1251", "abcЖЗИ"}}
+		set := sets[rng.Intn(len(sets))]
+		s := "a" + runeText(rng, 1+rng.Intn(25), set.alpha)
+		bm, err := qrcode.NewQRCodeWriter().Encode(s, gozxing.BarcodeFormat_QR_CODE, 0, 0, map[gozxing.EncodeHintType]interface{}{gozxing.EncodeHintType_CHARACTER_SET: set.name})
+		if err != nil {
+			return "err:" + err.Error()
+		}
+		yield()
+		bmp, _ := gozxing.NewBinaryBitmapFromImage(bm)
+		r, err := qrcode.NewQRCodeReader().Decode(bmp, map[gozxing.DecodeHintType]interface{}{gozxing.DecodeHintType_PURE_BARCODE: true})
+		if err != nil {
+			return "err:" + err.Error()
+		}
+		return digestMatrix(bm) + "|" + fmt.Sprint(r.GetText() == s) + r.GetText()
 	case "dm_enc", "dm_rt":
 		n := 1 + rng.Intn(60)
 		if rng.Intn(3) == 0 {
